@@ -193,6 +193,7 @@ func (r *Recorder) NotifyMsg(b []byte) {
 		<-r.BlockMsg
 	}
 }
+
 // FillExact makes the next n GetBroadcasts calls return one message of exactly limit-overhead bytes (a delegate that
 // uses what it is offered to the last byte).
 func (r *Recorder) FillExact(n int) { r.mu.Lock(); r.fillExact = n; r.mu.Unlock() }
